@@ -465,7 +465,8 @@ def iter_count(eng, st, site, func, target, args, dty):
             ln = vv.len if isinstance(vv, VVec) else None
         if ln is not None and eng.ent(st, c_le(it.pos, ln)):
             return [(st, VInt(us, ln - it.pos))]
-    return None
+    # anything else: as many calls of next() as it takes (the loop it is)
+    return eng.call_local(st, site, "synth::fold_count", [it], tag="count") if "synth::fold_count" in eng.fx.fns else None
 
 
 @stub(r"^std::vec::Vec::<T, A>::extend$|<std::vec::Vec<T, A> as std::iter::Extend<T>>::extend$|^std::iter::Extend::extend$")
